@@ -167,6 +167,25 @@ func (q *quota) Inc(APIStream publicTypes.APIStreamI) incResult {
 	return blocked
 }
 
+// refund gives back the count Inc took for this request, as long as that count is still
+// pending in the current window (not yet consumed by Allowed, not dropped by a window restart).
+func (q *quota) refund(APIStream publicTypes.APIStreamI) {
+	q.mutex.Lock()
+	defer q.mutex.Unlock()
+	reqID := APIStream.GetID()
+	if !q.allowedByReqID[reqID] {
+		return
+	}
+	q.allowedByReqID[reqID] = false
+	if err := q.context.AtomicDecr(q.currentCountKey); err != nil {
+		q.logger.Warn().Err(err).Msg("Failed to give back quota count")
+		return
+	}
+	if shownCount := q.getCountFromContext(q.currentCountKey); shownCount > 0 {
+		q.storeCountIntoContext(shownCount-1, q.currentCountKey)
+	}
+}
+
 func (q *quota) Dec(APIStream publicTypes.APIStreamI) {
 	q.mutex.Lock()
 	defer q.mutex.Unlock()
@@ -396,17 +415,39 @@ func (fw *fixedWindow) Dec(APIStream publicTypes.APIStreamI) error {
 }
 
 func (fw *fixedWindow) Inc(APIStream publicTypes.APIStreamI) error {
+	_, err := fw.incChain(APIStream)
+	return err
+}
+
+// incChain counts the request in this quota and, when it had room, in its ancestors.
+// When an ancestor has no room, the count taken here is given back, so that a request
+// which is refused higher up does not use up this quota's window.
+func (fw *fixedWindow) incChain(APIStream publicTypes.APIStreamI) (incResult, error) {
 	fw.windowAligning()
 	quotaObj, err := fw.getQuota(APIStream)
 	if err != nil {
-		return err
+		return blocked, err
 	}
 
-	isIncreased := quotaObj.Inc(APIStream)
-	if isIncreased == increased && fw.parent != nil {
-		return fw.parent.GetQuota().Inc(APIStream)
+	result := quotaObj.Inc(APIStream)
+	if result != increased || fw.parent == nil {
+		return result, nil
 	}
-	return nil
+
+	parent, isFixedWindow := fw.parent.GetQuota().(*fixedWindow)
+	if !isFixedWindow {
+		return result, fw.parent.GetQuota().Inc(APIStream)
+	}
+
+	parentResult, err := parent.incChain(APIStream)
+	if err != nil {
+		return result, err
+	}
+	if parentResult == blocked {
+		quotaObj.refund(APIStream)
+		return blocked, nil
+	}
+	return result, nil
 }
 
 func (fw *fixedWindow) ResetIn() time.Duration {
